@@ -348,7 +348,20 @@ class Timeline:
         #--------------------------------------------------------------------------------
         # Increment beat count according to our current tick_length.
         #--------------------------------------------------------------------------------
-        self.current_time += self.tick_duration
+        self.current_time = self.time_after_tick(self.current_time)
+
+    def time_after_tick(self, current_time: float) -> float:
+        """
+        The time one tick after `current_time`, in beats.
+
+        Times are whole numbers of ticks. Adding 1/ticks_per_beat tick after tick lets the
+        rounding errors of the additions pile up, until (after some 10^5 ticks) events are
+        performed a tick late; so the time is re-derived from the tick count instead.
+        """
+        ticks = current_time * self.ticks_per_beat
+        if abs(ticks - round(ticks)) < 1e-6:
+            return (round(ticks) + 1) / self.ticks_per_beat
+        return current_time + self.tick_duration
 
     def dump(self):
         """
